@@ -596,3 +596,71 @@ func VerifCore_QueuedStart() {
 	sym.Assert(pe.ID == pd.ID && pe.Round == pd.Round && pe.Phase == pd.Phase, "T4: queued delivery reaches the same progress as direct delivery")
 	sym.Assert(len(e.h.broadcasts) == len(d.h.broadcasts), "T4: and emits the same number of messages")
 }
+
+// VerifCore_DecideAnywhere: wherever the participant is (QUALITY, PREPARE or
+// COMMIT of round 0, CONVERGE of round 1), a valid DECIDE for a value v (its
+// input or a fork; justified by a COMMIT quorum of some round) moves it to the
+// DECIDE phase with exactly one DECIDE of its own for v carrying a
+// justification; a strong quorum of DECIDE votes then terminates the instance
+// with v; no alarm is lost meanwhile (T2: any valid DECIDE -> DECIDE phase,
+// strong DECIDE quorum -> terminate).
+func VerifCore_DecideAnywhere() {
+	input := VerifX(2)
+	e := newVerifEnv(input, false)
+	switch sym.Choice("where", 4) {
+	case 0:
+		e.start()
+	case 1:
+		e.quickToPrepare()
+		sym.Assume(e.phase() == PREPARE_PHASE)
+	case 2:
+		e.quickToCommit()
+		sym.Assume(e.phase() == COMMIT_PHASE)
+	default:
+		e.quickToRound1()
+		sym.Assume(e.phase() == CONVERGE_PHASE)
+	}
+	v, _ := verifPick("decided-elsewhere", 2, 4)
+	sym.Assume(v != nil)
+	jround := uint64(1 + sym.Choice("commit-round-minus-1", 2))
+	for _, idx := range []int{0, 1, verifByzIdx} {
+		e.castVote(idx, jround, COMMIT_PHASE, v)
+	}
+	before := len(e.h.broadcasts)
+	first := true
+	for _, idx := range []int{0, 1, verifByzIdx} {
+		if e.p.Progress().ID != verifInstance {
+			break
+		}
+		if !sym.Bool("decide-vote") {
+			continue
+		}
+		m := e.message(idx, 0, DECIDE_PHASE, v, 4, jround)
+		if m == nil || !e.deliver(m) {
+			continue
+		}
+		if first && e.p.Progress().ID == verifInstance {
+			first = false
+			sym.Cover("jumped-to-decide")
+			sym.Assert(e.phase() == DECIDE_PHASE, "T2: a valid DECIDE moves the participant to the DECIDE phase")
+			n := 0
+			for _, mb := range e.h.broadcasts[before:] {
+				if mb.Payload.Phase == DECIDE_PHASE {
+					n++
+					sym.Assert(mb.Payload.Value.Eq(v) && mb.Justification != nil && mb.Justification.Vote.Phase == COMMIT_PHASE, "its own DECIDE is for the same value and carries the COMMIT justification")
+				}
+			}
+			sym.Assert(n == 1, "exactly one own DECIDE")
+			sym.Assert(!e.h.alarm.IsZero(), "T1: a participant in DECIDE has a pending alarm")
+		}
+	}
+	if len(e.h.decisions) == 1 {
+		sym.Cover("decided")
+		sym.Assert(e.h.decisions[0].Vote.Value.Eq(v), "decides the value of the DECIDE quorum")
+	} else if !first {
+		// in DECIDE without a quorum yet: a timeout only rebroadcasts
+		e.fireAlarm(0)
+		sym.Assert(e.phase() == DECIDE_PHASE && !e.h.alarm.IsZero(), "T1: stays in DECIDE with a pending alarm")
+		sym.Cover("waiting-in-decide")
+	}
+}
